@@ -338,6 +338,17 @@ impl DwarfRegisterMap {
         self.0[register.0 as usize] = Some(value);
     }
 
+    /// Forget a register value (it is not recoverable in the context the map describes).
+    ///
+    /// # Arguments
+    ///
+    /// * `register`: target register.
+    pub fn invalidate(&mut self, register: gimli::Register) {
+        if let Some(value) = self.0.get_mut(register.0 as usize) {
+            *value = None;
+        }
+    }
+
     /// Update current registers from another map, preserving existing values
     /// when the incoming map has no value.
     ///
